@@ -641,7 +641,69 @@ pub(crate) fn v1_vert_row_borders() {
 }
 
 
+// ---------------------------------------------------------------------
+// Native replay target for the WrappedBlock specs of mirsym: builds a block
+// in the given state, feeds it the given characters (or just flushes the
+// word when there are none) and checks termination, the width bound and the
+// representation invariant.
+// ---------------------------------------------------------------------
+pub(crate) fn m_wrap_step() {
+    use self::TaggedLineElement::Str;
+    let mode: u8 = kani::any();
+    let width: usize = kani::any();
+    let line_len: usize = kani::any();
+    let wslen: usize = kani::any();
+    let wordlen: usize = kani::any();
+    let word_nonempty: bool = kani::any();
+    let allow_overflow: bool = kani::any();
+    let pre_wrapped: bool = kani::any();
+    let nchars: u8 = kani::any();
+    kani::assume(width <= 4096 && line_len <= width && wslen <= 4096 && wordlen <= 4096 && nchars <= 3);
+    let ws = match mode {
+        0 => WhiteSpace::Normal,
+        1 => WhiteSpace::Pre,
+        _ => WhiteSpace::PreWrap,
+    };
+    let mut wb: WrappedBlock<u8> = WrappedBlock::new(width, false, allow_overflow);
+    if line_len > 0 {
+        wb.line.push_str(TaggedString { s: "x".repeat(line_len), tag: 1 });
+    }
+    if word_nonempty || wordlen > 0 {
+        if wordlen > 0 {
+            wb.word.push_str(TaggedString { s: "y".repeat(wordlen), tag: 2 });
+        } else {
+            wb.word.push_str(TaggedString { s: "\u{301}".to_string(), tag: 2 });
+        }
+    }
+    wb.wordlen = wordlen;
+    wb.wslen = wslen;
+    wb.spacetag = if wslen > 0 { Some(3) } else { None };
+    wb.pre_wrapped = pre_wrapped;
+    let mut text = String::new();
+    for _ in 0..nchars {
+        let c: u32 = kani::any();
+        text.push(char::from_u32(c).unwrap_or('?'));
+    }
+    let r = if nchars == 0 { wb.flush_word(ws) } else { wb.add_text(&text, ws, &5u8, &6u8) };
+    match r {
+        Err(_) => assert!(!allow_overflow, "TooNarrow although overflow is allowed"),
+        Ok(()) => {
+            if !allow_overflow {
+                assert!(wb.line.len <= width, "current line wider than the block: {} > {}", wb.line.len, width);
+                for l in wb.text.iter() {
+                    assert!(l.len <= width, "flushed line wider than the block: {} > {}", l.len, width);
+                }
+            }
+            assert!(wb.line.width() == wb.line.len);
+            if ws == WhiteSpace::Normal {
+                assert!(wb.wslen <= 1, "collapsed whitespace is at most one column");
+            }
+        }
+    }
+}
+
 crate::verif_common::registry! {
+    m_wrap_step,
     t1_width_minus, t2_wrap_width,
     t3_border_join_step, t3_border_stretch, t3_border_merge, t3_border_merge_small, t3_border_glyphs, t3_border_vertical_lines,
     t4_tagged_push_str, t4_tagged_insert_front, t4_tagged_push_char, t4_tagged_frag_consume, t5_annotation_stack, v1_vert_row_borders, 
